@@ -133,6 +133,11 @@ class Process(metaclass=abc.ABCMeta):
 
         self._parameters = copy.deepcopy(self.defaults)
         self._parameters = deep_merge(self._parameters, parameters)
+        if '_schema' in self._parameters:
+            # an override of its own: overrides merged in later must not
+            # reach the other processes built from the same parameters
+            self._parameters['_schema'] = copy.deepcopy(
+                self._parameters['_schema'])
         self._schema_override: Schema = self._parameters.get('_schema', {})
         self._parallel = self._parameters.get('_parallel', False)
         self._condition_path: Optional[HierarchyPath] = None
